@@ -153,16 +153,18 @@ holds for the source (a known source reuses its channel, an unknown one gets `UD
 the `UDP_DATA` frame sent for a datagram decodes on the server to *that datagram's* address
 text, port and payload. -/
 theorem C05_udp_per_datagram (tbl : UdpTable) (fam src : Nat) (ip : Text) (port : Nat) (data : Bytes)
-    (fresh : Nat) (hcomma : 44 ∉ ip) (hasc : isAscii ip = true) (hf : fresh ≠ 0) :
-    (dataPayloads (onacceptUdp tbl fam src ip (Int.ofNat port) data (some fresh)).2).map udpReq =
+    (fresh now : Nat) (hcomma : 44 ∉ ip) (hasc : isAscii ip = true) (hf : fresh ≠ 0) :
+    (dataPayloads (onacceptUdp tbl fam src ip (Int.ofNat port) data (some fresh) now).2).map udpReq =
       [.ok ip (Int.ofNat port) data] := by
-  rw [onacceptUdp_payloads tbl fam src ip port data fresh hasc hf]
+  rw [onacceptUdp_payloads tbl fam src ip port data fresh now hasc hf]
   simp only [List.map_cons, List.map_nil]
   rw [C05_udp_hdr ip port data hcomma]
 
 /-- **Sequences.** For every sequence of datagrams — any mix of sources, a source sending to
-several different destinations within one association included — the server's `udp_req` sees,
-in order, exactly the destination and payload of each datagram. -/
+several different destinations within one association included, at arbitrary clock readings
+(associations being refreshed, expiring and being re-opened in between) — the server's
+`udp_req` sees, in order, exactly the destination and payload of each datagram: the server
+does `sendto(dst_i, data_i)` for every `i`. -/
 theorem C05_udp_sequence (fam : Nat) (tbl : UdpTable) (ds : List Dgram)
     (h : ∀ d ∈ ds, 44 ∉ d.ip ∧ isAscii d.ip = true ∧ d.fresh ≠ 0) :
     (dataPayloads (runUdp fam tbl ds)).map udpReq =
@@ -172,15 +174,37 @@ theorem C05_udp_sequence (fam : Nat) (tbl : UdpTable) (ds : List Dgram)
   | cons d ds ih =>
     obtain ⟨h1, h2, h3⟩ := h d (by simp)
     simp only [runUdp, dataPayloads_append, List.map_append, List.map_cons]
-    rw [C05_udp_per_datagram tbl fam d.src d.ip d.port d.data d.fresh h1 h2 h3,
+    rw [C05_udp_per_datagram tbl fam d.src d.ip d.port d.data d.fresh d.now h1 h2 h3,
         ih _ (fun x hx => h x (by simp [hx]))]
     rfl
 
 /-- Non-vacuity: one source, two destinations; the second frame carries the second one. -/
 example :
-    runUdp 2 [] [⟨1, strV4 10 0 0 1, 53, [1], 7⟩, ⟨1, strV4 10 0 0 2, 5353, [2, 44], 8⟩] =
+    runUdp 2 [] [⟨1, strV4 10 0 0 1, 53, [1], 7, 100⟩, ⟨1, strV4 10 0 0 2, 5353, [2, 44], 8, 101⟩] =
       [.open_ 7 [50], .data 7 (bytesOfStr "10.0.0.1,53," ++ [1]),
        .data 7 (bytesOfStr "10.0.0.2,5353," ++ [2, 44])] := by decide
+
+/-- **Refresh before the sweep.** The call that handles a datagram from `src` leaves `src`'s
+association in the table on the very channel its `UDP_DATA` went out on (the known channel if
+there was one), at any clock reading: the expiry sweep at the end of the call can close other
+sources' associations, never the one just used, so the next datagram of `src` needs no new
+`UDP_OPEN` and cannot land on a closed channel. -/
+theorem C05_udp_association_kept (tbl : UdpTable) (fam src : Nat) (ip : Text) (port : Int) (data : Bytes)
+    (fresh now : Nat) (hasc : isAscii ip = true) (hf : fresh ≠ 0) :
+    ∃ c, (onacceptUdp tbl fam src ip port data (some fresh) now).1.find src = some c ∧
+      UdpEv.data c (encodeUdp ip port data) ∈ (onacceptUdp tbl fam src ip port data (some fresh) now).2 ∧
+      (∀ c', tbl.find src = some c' → c = c') :=
+  onacceptUdp_keeps tbl fam src ip port data fresh now hasc hf
+
+/-- Non-vacuity with expiry: source 2's association (deadline 130) is swept at time 140 while
+source 1, refreshed in the same call, stays; source 2 then gets a fresh `UDP_OPEN`. -/
+example :
+    runUdp 2 [] [⟨1, strV4 10 0 0 1, 53, [], 7, 100⟩, ⟨2, strV4 10 0 0 1, 53, [], 8, 100⟩,
+                 ⟨1, strV4 10 0 0 9, 99, [], 9, 140⟩, ⟨2, strV4 10 0 0 3, 53, [], 9, 141⟩] =
+      [.open_ 7 [50], .data 7 (bytesOfStr "10.0.0.1,53,"),
+       .open_ 8 [50], .data 8 (bytesOfStr "10.0.0.1,53,"),
+       .data 7 (bytesOfStr "10.0.0.9,99,"), .close 8,
+       .open_ 9 [50], .data 9 (bytesOfStr "10.0.0.3,53,")] := by decide
 
 /-! ## 4. Self-address guard -/
 
@@ -264,6 +288,83 @@ theorem C05_cmsg_none (le : Bool) (noise : List Cmsg) (hn : ∀ n ∈ noise, n.F
     tproxyRecvUdp le noise = .none_ := by
   have := tproxy_skip le noise [] hn
   simpa [tproxyRecvUdp] using this
+
+/-- **Never a wrong address.** For *every* ancillary list `recvmsg` can deliver (any number
+and order of control messages, any contents, truncated or not), on either byte order: if
+`recv_udp` returns a destination at all, it is the decode of the first recognised
+`ORIGDSTADDR` item at the real `sockaddr_in` / `sockaddr_in6` offsets — port in network order at
+2..4, IPv4 address at 4..8, IPv6 address at 8..24 after the flowinfo word, sixteen bytes all
+present — and everything before that item is foreign. -/
+theorem C05_cmsg_total (le : Bool) (cs : List Cmsg) (ip : Text) (port : Nat)
+    (h : tproxyRecvUdp le cs = .ok ip port) :
+    ∃ pre c post, cs = pre ++ c :: post ∧ (∀ n ∈ pre, n.Foreign) ∧ DecodesTo le c ip port :=
+  tproxy_ok_inv le cs ip port h
+
+/-- **A truncated item never yields a destination.** If the first recognised item is an
+`IPV6_ORIGDSTADDR` whose data stops before byte 24 (resp. an `IP_ORIGDSTADDR` stopping before
+byte 8), `recv_udp` does not return a destination (it raises; nothing is forwarded). -/
+theorem C05_cmsg_truncated (le : Bool) (pre post : List Cmsg) (c : Cmsg) (ip : Text) (port : Nat)
+    (hpre : ∀ n ∈ pre, n.Foreign)
+    (hc : (c.level = 41 ∧ c.type = 74 ∧ c.data.length < 24) ∨ (c.level = 0 ∧ c.type = 20 ∧ c.data.length < 8)) :
+    tproxyRecvUdp le (pre ++ c :: post) ≠ .ok ip port := by
+  intro h
+  rw [tproxy_skip le pre _ hpre] at h
+  obtain ⟨pre', c', post', hcs, hpre', f0, f1, p1, p0, _, _, hd⟩ := tproxy_ok_inv le _ ip port h
+  cases pre' with
+  | cons n ns =>
+    simp only [List.cons_append, List.cons.injEq] at hcs
+    have := hpre' n (by simp)
+    rw [← hcs.1] at this
+    rcases hc with hc | hc
+    · exact this.2 ⟨hc.1, hc.2.1⟩
+    · exact this.1 ⟨hc.1, hc.2.1⟩
+  | nil =>
+    simp only [List.nil_append, List.cons.injEq] at hcs
+    rw [← hcs.1] at hd
+    rcases hd with ⟨l4, t4, _, a, b, c'', d, hpk, _⟩ | ⟨l6, t6, _, hlen, _⟩
+    · rcases hc with hc | hc
+      · omega
+      · have : ((c.data.drop 4).take 4).length = 4 := by rw [hpk]; rfl
+        simp only [List.length_take, List.length_drop] at this
+        omega
+    · rcases hc with hc | hc
+      · simp only [List.length_take, List.length_drop] at hlen
+        omega
+      · omega
+
+/-- **The control buffer the code asks for is big enough — and the next smaller size is not.**
+With `CMSG_SPACE(24)` (the size read from the source) the kernel hands over the first 24 bytes
+of the 28-byte `sockaddr_in6` (scope id cut off, `MSG_CTRUNC`), which still hold the whole
+address: the destination is recovered for every address and port.  With `CMSG_SPACE(16)` the
+same datagram makes `recv_udp` raise. -/
+theorem C05_cmsg_buffer (le : Bool) (port : Nat) (x : V4) (pad : Bytes) (flow : Bytes) (gs : List Nat)
+    (scope : Bytes) (hp : port < 65536) (hpad : pad.length = 8) (hflow : flow.length = 4)
+    (hgs : gs.length = 8) (hscope : scope.length = 4) :
+    tproxyRecvUdp le (kernelAncillary (cmsgSpace C05.TPROXY_ANC_DATA)
+        [origDstCmsgV4 le C05.AF_INET port x pad]) = .ok (strV4 x.a x.b x.c x.d) port ∧
+    tproxyRecvUdp le (kernelAncillary (cmsgSpace C05.TPROXY_ANC_DATA)
+        [origDstCmsgV6 le C05.AF_INET6 port flow gs scope]) = .ok (ntopV6 gs) port ∧
+    tproxyRecvUdp le (kernelAncillary (cmsgSpace 16)
+        [origDstCmsgV6 le C05.AF_INET6 port flow gs scope]) = .valueError := by
+  have hport := port_native le port hp
+  match pad, hpad, flow, hflow, gs, hgs, scope, hscope with
+  | [q0, q1, q2, q3, q4, q5, q6, q7], _, [a, b, c, d], _, [g0, g1, g2, g3, g4, g5, g6, g7], _, [s0, s1, s2, s3], _ =>
+    have k4 : kernelAncillary (cmsgSpace C05.TPROXY_ANC_DATA)
+        [origDstCmsgV4 le C05.AF_INET port x [q0, q1, q2, q3, q4, q5, q6, q7]] =
+        [origDstCmsgV4 le C05.AF_INET port x [q0, q1, q2, q3, q4, q5, q6, q7]] := by
+      cases le <;> simp [kernelAncillary, cmsgSpace, cmsgHdr, cmsgAlign, C05.TPROXY_ANC_DATA, origDstCmsgV4, native16]
+    have k6 : kernelAncillary (cmsgSpace C05.TPROXY_ANC_DATA)
+        [origDstCmsgV6 le C05.AF_INET6 port [a, b, c, d] [g0, g1, g2, g3, g4, g5, g6, g7] [s0, s1, s2, s3]] =
+        [origDstCmsgV6 le C05.AF_INET6 port [a, b, c, d] [g0, g1, g2, g3, g4, g5, g6, g7] []] := by
+      cases le <;> simp [kernelAncillary, cmsgSpace, cmsgHdr, cmsgAlign, C05.TPROXY_ANC_DATA, origDstCmsgV6,
+        native16, v6Bytes, packGroups]
+    refine ⟨?_, ?_, ?_⟩
+    · rw [k4]; exact tproxy_v4 le port x _ [] hp
+    · rw [k6]; exact tproxy_v6 le port _ _ [] [] hp rfl rfl
+    · cases le <;>
+        simp [kernelAncillary, cmsgSpace, cmsgHdr, cmsgAlign, origDstCmsgV6, native16, v6Bytes, packGroups,
+          tproxyRecvUdp, tproxyOne, inetNtop, rd16, C05.SOL_IP, C05.TPROXY_IP_ORIGDSTADDR, C05.TPROXY_SOL_IPV6,
+          C05.TPROXY_IPV6_ORIGDSTADDR, C05.TPROXY_V6_START, C05.TPROXY_V6_LENGTH, C05.AF_INET6, C05.AF_INET]
 
 /-! ## 6. pf: the QUERY_PF_NAT dialogue -/
 
@@ -492,6 +593,118 @@ theorem C05_end_to_end_ntop (fam6 : Nat) (x : V4) (gs : List Nat) (port : Nat) (
   have h6 := C05_connect_path fam6 (ntopV6 gs) port sockPort isl c (ntopV6_ok gs) hnot hc
   exact ⟨⟨h4.1, by simpa using h4.2, C05_text_roundtrip_v4 x hx⟩,
     ⟨h6.1, by simpa [hfam] using h6.2, C05_text_roundtrip_v6_ntop gs hgs⟩⟩
+
+/-- **One TCP round trip over the text model.** Whatever the application dialled — an IPv4
+address, an IPv6 address, or a scoped link-local IPv6 address such as `fe80::1%eth0` — and
+whichever way the client printed it (dotted quad; CPython's or libc's IPv6 text; either
+followed by `%zone`), for every port, every family number of the client's platform and every
+listener port that is not the self case: `onaccept_tcp` sends exactly one CONNECT, the server
+parses it back to exactly that text and port (it neither rewrites nor rejects the text — a
+`%zone` suffix included), opens an `AF_INET` socket iff the destination is IPv4, and the text
+denotes the dialled address. -/
+theorem C05_tcp_roundtrip (d : Dialled) (t : Text) (fam port : Nat) (sockPort : Int) (isl : IsLocal) (c : Nat)
+    (hd : d.Wf) (ht : d.Printed t) (hc : c ≠ 0) (hnot : Int.ofNat port ≠ sockPort ∨ isl = .no) :
+    onacceptTcp fam t (Int.ofNat port) sockPort isl (some c) =
+      [.connect c (encodeConnect fam t (Int.ofNat port))] ∧
+    newChannel (encodeConnect fam t (Int.ofNat port)) =
+      .ok (if fam = C05.AF_INET then C05.AF_INET else C05.AF_INET6) t (Int.ofNat port) ∧
+    d.Denoted t := by
+  have hzone : ∀ (a zone : Text), (44 ∉ a ∧ isAscii a = true) →
+      (∀ c ∈ zone, (48 ≤ c ∧ c ≤ 57) ∨ (97 ≤ c ∧ c ≤ 122) ∨ (65 ≤ c ∧ c ≤ 90)) →
+      (44 ∉ a ++ 37 :: zone ∧ isAscii (a ++ 37 :: zone) = true) := by
+    intro a zone ha hz
+    rw [isAscii_iff] at ha ⊢
+    constructor
+    · intro hm
+      simp only [List.mem_append, List.mem_cons] at hm
+      rcases hm with h | h | h
+      · exact ha.1 h
+      · omega
+      · have := hz 44 h; omega
+    · intro x hx
+      simp only [List.mem_append, List.mem_cons] at hx
+      rcases hx with h | h | h
+      · exact ha.2 x h
+      · omega
+      · have := hz x h; omega
+  have hbreak : ∀ (a zone : Text), (∀ x ∈ a, isHexLower x = true ∨ x = 58 ∨ x = 46) →
+      breakAt 37 (a ++ 37 :: zone) = some (a, zone) := by
+    intro a zone ha
+    apply breakAt_append
+    intro hm
+    rcases ha 37 hm with h | h | h
+    · simp [isHexLower, isDigit] at h
+    · omega
+    · omega
+  have alpha6 : ∀ gs x, x ∈ strV6 gs → isHexLower x = true ∨ x = 58 ∨ x = 46 := by
+    intro gs x hx
+    rcases strV6_alphabet gs x hx with h | h
+    · exact Or.inl h
+    · exact Or.inr (Or.inl h)
+  have fin : ∀ (hok : 44 ∉ t ∧ isAscii t = true) (hden : d.Denoted t), _ := fun hok hden =>
+    (⟨(C05_connect_path fam t port sockPort isl c hok hnot hc).1,
+      (C05_connect_path fam t port sockPort isl c hok hnot hc).2, hden⟩ :
+      onacceptTcp fam t (Int.ofNat port) sockPort isl (some c) =
+        [.connect c (encodeConnect fam t (Int.ofNat port))] ∧
+      newChannel (encodeConnect fam t (Int.ofNat port)) =
+        .ok (if fam = C05.AF_INET then C05.AF_INET else C05.AF_INET6) t (Int.ofNat port) ∧
+      d.Denoted t)
+  cases d with
+  | v4 x =>
+    simp only [Dialled.Printed] at ht
+    subst ht
+    exact fin (strV4_ok _ _ _ _) (C05_text_roundtrip_v4 x hd)
+  | v6 gs =>
+    simp only [Dialled.Printed] at ht
+    rcases ht with rfl | rfl
+    · exact fin (strV6_ok gs) (C05_text_roundtrip_v6 gs hd)
+    · exact fin (ntopV6_ok gs) (C05_text_roundtrip_v6_ntop gs hd)
+  | v6scoped gs zone =>
+    simp only [Dialled.Printed] at ht
+    obtain ⟨hgs, _, hz⟩ := hd
+    rcases ht with rfl | rfl
+    · exact fin (hzone _ _ (strV6_ok gs) hz)
+        ⟨strV6 gs, hbreak _ _ (alpha6 gs), parseV6_strV6 gs hgs.1 hgs.2⟩
+    · exact fin (hzone _ _ (ntopV6_ok gs) hz)
+        ⟨ntopV6 gs, hbreak _ _ (ntopV6_alphabet gs), parseV6_ntopV6 gs hgs.1 hgs.2⟩
+
+example : (Dialled.v6scoped [0xfe80, 0, 0, 0, 0, 0, 0, 1] (bytesOfStr "eth0")).Wf ∧
+    (Dialled.v6scoped [0xfe80, 0, 0, 0, 0, 0, 0, 1] (bytesOfStr "eth0")).Printed (bytesOfStr "fe80::1%eth0") := by
+  refine ⟨⟨by decide, by decide, by decide⟩, Or.inr (by decide)⟩
+
+/-- **pf sessions end to end.** In a session whose hosts-file rewrites all succeed, for every
+interleaving of `HOST` lines and queries, the k-th accepted connection's `get_tcp_dstip`
+parses, from the line it reads, exactly the address text and port the kernel answered for
+*that* connection (then `C05_tcp_roundtrip` carries it to the server). -/
+theorem C05_pf_session_destinations (ops : List SOp)
+    (hops : ∀ op ∈ ops, op = .host false ∨
+      ∃ ip port, (44 ∉ ip ∧ isAscii ip = true) ∧
+        op = .query (pfOkPrefix ++ (ip ++ 44 :: (decNat port ++ [10])))) :
+    ∀ r ∈ sessRun {} ops, r = none ∨
+      ∃ ip port, r = some (.line (pfOkPrefix ++ (ip ++ 44 :: (decNat port ++ [10])))) ∧
+        pfParseReply (pfOkPrefix ++ (ip ++ 44 :: (decNat port ++ [10]))) = .ok ip (Int.ofNat port) := by
+  rw [C05_pf_session_pairing ops {} rfl]
+  have key : ∀ (ops : List SOp), (∀ op ∈ ops, op = .host false ∨
+      ∃ ip port, (44 ∉ ip ∧ isAscii ip = true) ∧
+        op = .query (pfOkPrefix ++ (ip ++ 44 :: (decNat port ++ [10])))) →
+      ∀ r ∈ sessExpected true ops, r = none ∨
+      ∃ ip port, r = some (.line (pfOkPrefix ++ (ip ++ 44 :: (decNat port ++ [10])))) ∧
+        pfParseReply (pfOkPrefix ++ (ip ++ 44 :: (decNat port ++ [10]))) = .ok ip (Int.ofNat port) := by
+    intro ops
+    induction ops with
+    | nil => intro _ r hr; simp [sessExpected] at hr
+    | cons op rest ih =>
+      intro h r hr
+      rcases h op (by simp) with rfl | ⟨ip, port, hip, rfl⟩
+      · simp only [sessExpected, Bool.not_false, Bool.and_self, List.mem_cons] at hr
+        rcases hr with rfl | hr
+        · exact Or.inl rfl
+        · exact ih (fun o ho => h o (by simp [ho])) r hr
+      · simp only [sessExpected, ↓reduceIte, List.mem_cons] at hr
+        rcases hr with rfl | hr
+        · exact Or.inr ⟨ip, port, rfl, pfParseReply_ok ip port hip.1 hip.2⟩
+        · exact ih (fun o ho => h o (by simp [ho])) r hr
+  exact key ops hops
 
 /-- **tproxy UDP**: kernel cmsg → `recv_udp` → `b"%s,%d," + data` → server `split(b',', 2)` →
 `sendto`: same payload (whatever bytes it holds), same port, a text denoting the dialled
